@@ -22,6 +22,7 @@ from pycardano.certificate import (
     StakeRegistrationAndDelegationAndVoteDelegation,
     StakeRegistrationAndVoteDelegation,
     StakeRegistrationConway,
+    UnregDRepCertificate,
     VoteDelegation,
 )
 from pycardano.coinselection import (
@@ -927,6 +928,7 @@ class TransactionBuilder:
         stake_registration_certs = set()
         stake_registration_certs_with_explicit_deposit = []
         stake_pool_registration_certs = set()
+        refund = 0
 
         protocol_params = self.context.protocol_param
 
@@ -945,6 +947,10 @@ class TransactionBuilder:
                     ),
                 ):
                     stake_registration_certs_with_explicit_deposit.append(cert.coin)
+                elif isinstance(cert, StakeDeregistration):
+                    refund += protocol_params.key_deposit
+                elif isinstance(cert, (StakeDeregistrationConway, UnregDRepCertificate)):
+                    refund += cert.coin
                 elif (
                     isinstance(cert, PoolRegistration)
                     and self.initial_stake_pool_registration
@@ -957,7 +963,7 @@ class TransactionBuilder:
         stake_pool_registration_deposit = protocol_params.pool_deposit * len(
             stake_pool_registration_certs
         )
-        return stake_registration_deposit + stake_pool_registration_deposit
+        return stake_registration_deposit + stake_pool_registration_deposit - refund
 
     def _get_total_proposal_deposit(self):
         proposal_deposit = 0
